@@ -100,7 +100,7 @@ def stable_name(fn, node, ordinal=0):
     return A.src(node)
 
 
-def data_of(scope, value_name):
+def data_of(scope, value_name, rebinds=None):
     """The local bound to the data part of *value_name*: `<data>, <context> = ...get_data_context(<value_name>)`
     or `<data> = ...get_data(<value_name>)` inside *scope*; None if absent or ambiguous."""
     found = []
@@ -118,6 +118,12 @@ def data_of(scope, value_name):
         return None
     # bound exactly once in the scope
     binds = [n for n in A.walk_local(scope) if isinstance(n, ast.Name) and isinstance(n.ctx, (ast.Store, ast.Del)) and n.id == found[0]]
+    if rebinds is not None:
+        # the caller looks at re-bindings `<data> = <expr>` itself
+        for a in A.walk_local(scope):
+            if isinstance(a, ast.Assign) and len(a.targets) == 1 and isinstance(a.targets[0], ast.Name) and a.targets[0].id == found[0]:
+                rebinds.append(a)
+        return found[0] if len(binds) == 1 + len(rebinds) else None
     return found[0] if len(binds) == 1 else None
 
 
@@ -353,7 +359,24 @@ def check_delegation(ctx):
                           detail="every member is rescaled with data.scale(scale)%s" % (" [tolerated failure]" if excs else ""),
                           construct="scale_to:%s" % p.describe(2), path=p)
     st = ctx.tree.func("lena.structures.elements", "ScaleTo.__call__")
-    data = data_of(st, A.func_params(st)[1])
+    rebinds = []
+    data = data_of(st, A.func_params(st)[1], rebinds)
+    for a in rebinds:
+        # the structure that is rescaled in place is the one from the flow or an independent (deep) copy of it; a shallow copy
+        # shares its coordinate lists with the original, and scale() assigns into them
+        v = a.value
+        canon = ctx.res.call_canon(v) if isinstance(v, ast.Call) else None
+        arg_ok = isinstance(v, ast.Call) and len(v.args) == 1 and isinstance(v.args[0], ast.Name) and v.args[0].id == data
+        if canon == "copy.deepcopy" and arg_ok:
+            ctx.ok("C12-d", a, "ScaleTo rescales a deep copy of the data")
+        elif arg_ok and canon == "copy.copy":
+            ctx.violation("C12-d", a, "ScaleTo.__call__ rescales `%s`, a shallow copy of the structure from the flow: the copy shares the "
+                          "coordinate and error lists with the original, and graph.scale assigns the rescaled columns into them, so the "
+                          "original (another branch of a Split without copy_buf, a value run twice) has its contents multiplied while "
+                          "its own scale stays what it was -- its cells are no longer original * scale / old scale" % A.src(v),
+                          construct="scaleto-shallow-copy")
+        else:
+            ctx.unknown("C12-d", a, "ScaleTo.__call__: the data is rebound to `%s` before it is rescaled" % A.short(v, 50))
     if ctx.require(data is not None, "C12-d", st, "ScaleTo.__call__: the data part of the value (get_data_context(<value>)) not found"):
         calls = [c for c in A.walk_local(st) if isinstance(c, ast.Call) and isinstance(c.func, ast.Attribute) and c.func.attr == "scale"]
         ok = len(calls) == 1 and isinstance(calls[0].func.value, ast.Name) and calls[0].func.value.id == data and len(calls[0].args) == 1 \
@@ -880,6 +903,8 @@ VARIANTS = [
     M("scale-forgets-oor", "lena/structures/histogram.py", "            self.n_out_of_range *= other/scale\n", "", ["C12-c"]),
     M("graph-inplace", "lena/structures/graph.py", "                mappedl = list(map(partial(mul, rescale), arr))\n                self.coords[ind] = mappedl", "                arr[:] = map(partial(mul, rescale), arr)", ["C12-c"]),
     M("graph-rescales-all", "lena/structures/graph.py", "            if ind in last_coord_indices:\n", "            if True:\n", ["C12-c"]),
+    M("scaleto-shallow-copy", "lena/structures/elements.py", "        data.scale(self._scale_to)\n", "        data = copy.copy(data)\n        data.scale(self._scale_to)\n", ["C12-d"]),
+    TW("scaleto-deep-copy", "lena/structures/elements.py", "        data.scale(self._scale_to)\n", "        data = copy.deepcopy(data)\n        data.scale(self._scale_to)\n"),
     M("scaleto-conditional", "lena/structures/elements.py", "        data.scale(self._scale_to)\n", "        if context:\n            data.scale(self._scale_to)\n", ["C12-d"]),
     M("iter-cells-not-up", "lena/structures/hist_functions.py", "        if up is None:\n            up = max_ind\n        else:\n            # huge indices should not be supported as well.\n            if up > max_ind:",
       "        if not up:\n            up = max_ind\n        else:\n            # huge indices should not be supported as well.\n            if up > max_ind:", ["C12-f"]),
